@@ -104,6 +104,15 @@ def gen_cases(tier, seed):
                     cases.append({"id": "%s-%s-%s-%s" % (site, msg, pos, mode), "sig": [site, msg, pos, mode], "site": site, "pos": pos, "mode": mode, "kind": "decrypt", "msg": msg})
         for u in UNSTARTABLE:
             cases.append({"id": "%s-%s" % (site, u), "sig": [site, "-", "all", u], "site": site, "pos": "all", "mode": u, "kind": "decrypt", "msg": "-"})
+    # the tool's first runs for an entity that did not exist before the fault plan started: whatever the entity concludes from a run that told
+    # it nothing (a probe of the tool, a first verification) must not decide what it accepts afterwards.  Fault kind 'any' counts every
+    # invocation, the informational ones (--version, --list-transforms) included.
+    fresh_modes = ["exit1_silent", "exit0_silent", "segv_before", "text_not_ok", "text_garbage", "trunc_output"] if tier == "quick" else VERIFY_MODES
+    for site in ("fresh-entity:verify-response", "fresh-entity:verify-assertion"):
+        for pos in (("1", "2") if tier == "quick" else ("1", "2", "3", "from2")):
+            for mode in fresh_modes:
+                cases.append({"id": "%s-%s-%s" % (site, pos, mode), "sig": [site, "sequence", pos, mode], "site": site, "pos": pos, "mode": mode, "kind": "any",
+                              "msg": "sequence"})
     return cases
 
 
@@ -232,6 +241,51 @@ def run_case(case, ctx):
         return {"outcome": outcome, "nontrivial": injected > 0, "violations": viol,
                 "counters": {"faults_injected": injected, "accepted": int(bool(served)), "genuine_ok_events": len(genuine)},
                 "obs": {"events": [monitors.slim(e) for e in evs][:4]}}
+
+    if kind == "any":
+        from vlib import xmlmut as xm
+        wrs, was = (1, 0) if site.endswith("verify-response") else (0, 1)
+        good_sp, good_idp = _entities(ctx, (wrs, was, 0, 0), None)
+        xml = fed.issue(good_idp, ident, sign_response=bool(wrs), sign_assertion=bool(was))
+        tns, tlocal = (xk.SAMLP, "Response") if wrs else (xk.SAML, "Assertion")
+        outsider = dict((n, t) for n, fam, t in xm.attacker_resigned(xml, tns, tlocal) if n in (
+            "resigned-by-outsider:keyvalue", "resigned-by-outsider:own-certificate", "resigned-by-outsider:no-keyinfo"))
+        seq = [("outsider-keyvalue", outsider["resigned-by-outsider:keyvalue"]), ("valid", xml),
+               ("outsider-certificate", outsider["resigned-by-outsider:own-certificate"]), ("tampered", _tamper(xml)),
+               ("outsider-keyvalue-again", outsider["resigned-by-outsider:keyvalue"]), ("valid-again", xml)]
+        spc = fed.sp_conf(want_response_signed=bool(wrs), want_assertions_signed=bool(was), authn_requests_signed=True)
+        idpmd = fed.metadata_of(fed.idp_conf())
+        outcomes, accepted_n, genuine_n = [], 0, 0
+        need = "Response" if wrs else "Assertion"
+        with Fault(ctx, case):
+            sp = fed.make_sp(spc, [idpmd])          # (an entity of its own: what it learns about the tool it learns under the plan)
+            for name, text in seq:
+                ctx.mark()
+                resp, exc = fed.deliver(sp, text, dict(OUT))
+                evs1 = log_events()
+                injected += len([e for e in evs1 if e.get("fault")])
+                gen = set(e.get("id_attr_node", "").rsplit(":", 1)[-1] for e in evs1 if monitors.genuine_ok(e))
+                genuine_n += len(gen)
+                outcomes.append("%s=%s" % (name, "accept" if resp is not None else "reject:" + (type(exc).__name__ if exc is not None else "None")))
+                if resp is None:
+                    continue
+                accepted_n += 1
+                if not name.startswith("valid"):
+                    viol.append({"key": "C20/message-not-vouched-for-accepted-after-tool-fault",
+                                 "what": desc + ": %s message accepted by an entity whose %s tool run had failed (tool events %r)" % (
+                                     name, {"1": "first", "2": "second", "3": "third"}.get(case["pos"], case["pos"]), [monitors.slim(e) for e in evs1][:4])})
+                elif need not in gen:
+                    viol.append({"key": "C20/accepted-without-genuine-verification", "what": desc + ": %s accepted, no genuine un-faulted OK for %s (events %r)" % (
+                        name, need, [monitors.slim(e) for e in evs1][:4])})
+        if "valid-again=accept" not in outcomes and case["pos"] in ("1", "2", "3"):
+            # (not a violation of this property - refusing is always allowed - but the sequence then showed nothing about acceptance)
+            ctx_note = "valid message refused after the faulted run"
+        else:
+            ctx_note = ""
+        return {"outcome": ",".join(outcomes), "nontrivial": injected > 0, "violations": viol,
+                "counters": {"faults_injected": injected, "accepted": accepted_n, "genuine_ok_events": genuine_n, "fresh_entities_built_under_plan": 1,
+                             "valid_refused_after_single_fault": int(bool(ctx_note))},
+                "obs": {"sequence": outcomes}}
 
     if kind == "verify":
         if site == "verify-request":
